@@ -1,8 +1,9 @@
 """C05 — lane property: word-level mechanism theorems over Gen_dqstate (+ site lists) and the stress oracle."""
 import lanes
+import lanewords
 
 PROPERTIES_FILE = "Properties/Properties_C05.v"
-COQ_DEPS = ["Proofs/Lane_iface.vo"]
+COQ_DEPS = ["Proofs/Lane_iface.vo"] + ["Model/LaneWords.vo"]
 GEN_MODULES = ["Gen_dqstate", "Gen_lanesites", "Gen_once"]
 LEVEL = "proof"
 TRUSTED = [
@@ -11,11 +12,15 @@ TRUSTED = [
     "on the implementation by the stress oracle reported in this evidence (exploration, not proof)",
     "src2v translator (clang AST -> Gallina), validated on the functions that have differential harnesses (C06, C12, C18)",
 ]
+TRUSTED += ["word-transition conformance (lib/lanewords.py, Model/LaneWords.v): every dq_state compare-and-swap attempt, single atomic "
+            "operation and give-up recorded in the stress runs is judged against the generated Gen_dqstate body of its source line "
+            "(parameter domains of lib/lanewords.py param_domain are trusted); it ties Gen_dqstate to the running code, it does not judge the property"]
 ASSUMPTIONS = ["the stress oracle explores the schedules the OS and the perturbation hook produce; absence of a failure there is not a proof"]
 
 
 def correspond(ctx):
-    return lanes.run(ctx, "C05")
+    return lanes.merge([lanes.run_part("lanes", lambda c: lanes.run(c, "C05"), ctx),
+                        lanes.run_part("words", lambda c: lanewords.run(c, "C05"), ctx)])
 
 
 def replay(ctx, obj):
